@@ -211,6 +211,7 @@ pub fn judge(which: &str, cfg: &Cfg, log: &[Rec]) -> Report {
     let mut arrived_while_open = 0u64;
     // half-open episode accounting
     let mut ho_enters = 0usize;
+    let (mut ho_successes, mut ho_failures, mut ho_abandoned) = (0usize, 0usize, 0usize);
     let mut ho_completed = 0usize;
     let mut ho_arrivals = 0usize;
     let mut max_ho_arrivals = 0usize;
@@ -234,6 +235,24 @@ pub fn judge(which: &str, cfg: &Cfg, log: &[Rec]) -> Report {
                         format!("breaker observed open at t={open_since}us (wait_duration_in_open={}us) left the open state at t={}us (to {}) without force_closed/reset", b.wait_us, r.t, c04::st_name(*to as u8)),
                     );
                 }
+                if which == "C04" && !manual_pending {
+                    let from = cur;
+                    match (from, *to) {
+                        (2, 0) if ho_successes < b.permitted => rep.violate(
+                            format!("C04:{wt}:concurrent:closed-after-too-few-trial-successes"),
+                            format!("half-open breaker closed at t={}us after {} successes recorded in this half-open episode, permitted_calls_in_half_open={} (trials {:?})", r.t, ho_successes, b.permitted, ho_trials),
+                        ),
+                        (2, 1) if ho_failures == 0 && ho_abandoned == 0 => rep.violate(
+                            format!("C04:{wt}:concurrent:reopened-without-trial-failure"),
+                            format!("half-open breaker re-opened at t={}us although no failure had been recorded and no trial abandoned in this half-open episode (trials {:?})", r.t, ho_trials),
+                        ),
+                        (1, 2) if r.t < open_since + b.wait_us => rep.violate(format!("C04:{wt}:concurrent:half-open-before-wait"), format!("open since t={open_since}us, half-open at t={}us, wait {}us", r.t, b.wait_us)),
+                        (1, 0) => rep.violate(format!("C04:{wt}:concurrent:open-to-closed"), format!("breaker went from open straight to closed at t={}us without force_closed/reset", r.t)),
+                        (0, 2) => rep.violate(format!("C04:{wt}:concurrent:closed-to-half-open"), format!("breaker went from closed to half-open at t={}us", r.t)),
+                        _ => {}
+                    }
+                    rep.count("transitions_judged", 1);
+                }
                 manual_pending = false;
                 cur = *to;
                 if cur == 1 {
@@ -246,6 +265,9 @@ pub fn judge(which: &str, cfg: &Cfg, log: &[Rec]) -> Report {
                     ho_enters = 0;
                     ho_completed = 0;
                     ho_arrivals = 0;
+                    ho_successes = 0;
+                    ho_failures = 0;
+                    ho_abandoned = 0;
                     ho_trials.clear();
                     rep.count("half_open_episodes", 1);
                 }
@@ -291,8 +313,22 @@ pub fn judge(which: &str, cfg: &Cfg, log: &[Rec]) -> Report {
             }
             Ev::InnerExit { req, how, .. } => {
                 inflight -= 1;
-                if cur == 2 && ho_trials.contains(req) && matches!(how, How::Ok | How::Err(_)) {
-                    ho_completed += 1;
+                if cur == 2 {
+                    // every outcome recorded while half-open counts (the property says "successes" and
+                    // "any failure", not "of trial calls": a call admitted before the breaker opened may
+                    // legitimately finish now); an abandoned *trial* is treated like a failure
+                    match how {
+                        How::Ok => ho_successes += 1,
+                        How::Err(_) => ho_failures += 1,
+                        _ => {
+                            if ho_trials.contains(req) {
+                                ho_abandoned += 1;
+                            }
+                        }
+                    }
+                    if ho_trials.contains(req) && matches!(how, How::Ok | How::Err(_)) {
+                        ho_completed += 1;
+                    }
                 }
             }
             Ev::Resolve { req, out } => {
@@ -330,6 +366,7 @@ pub fn judge(which: &str, cfg: &Cfg, log: &[Rec]) -> Report {
     rep.count("arrived_while_open", arrived_while_open);
     rep.bucket(format!("{wt} permitted={} fallback={} slow={}", b.permitted, cfg.fallback, b.slow_thr_us.is_some()));
     rep.nontrivial = match which {
+        "C04" => opened_with_inflight,
         "C03" => opened_with_inflight && arrived_while_open >= 1,
         _ => max_ho_arrivals > b.permitted,
     };
